@@ -228,7 +228,7 @@ def writers(F, owner, field):
 def adt_constructors(F, adt, variant=None):
     """[(body, bb, stmt)] aggregate constructions of `adt` (optionally one variant)"""
     r = []
-    for b in F.all_bodies():
+    for b in F.view_bodies():
         for bi, blk in enumerate(b.blocks):
             if blk["cleanup"]:
                 continue
